@@ -268,6 +268,30 @@ func (g *Gen) familyOf(p *prng, name, base string) family {
 	for tries := 0; tries < 20 && len(f.rs) < 6 && len(tm) > 0; tries++ {
 		addR(fill(p, pickS(p, tm), f.cands))
 	}
+	// long compounds: many parts joined by a separator this ecosystem's own
+	// ranges use (size thresholds are a classic place for a special path)
+	if seps := g.seps[name]; len(seps) > 0 && len(f.rs) > 0 {
+		for c := p.rng(1, 2); c > 0; c-- {
+			sep := pickS(p, seps)
+			var parts []string
+			for k := p.rng(3, 9); k > 0; k-- {
+				part := pickS(p, f.rs)
+				if p.chance(1, 3) && len(tm) > 0 {
+					part = fill(p, pickS(p, tm), f.cands)
+				}
+				if strings.Contains(part, strings.TrimSpace(sep)) && strings.TrimSpace(sep) != "" {
+					continue
+				}
+				parts = append(parts, part)
+			}
+			if len(parts) >= 3 {
+				r := strings.Join(parts, sep)
+				if len(r) <= 200 && tryR(e, r) {
+					f.rs = append(f.rs, r)
+				}
+			}
+		}
+	}
 	return f
 }
 
@@ -287,6 +311,9 @@ func (g *Gen) versSynth(p *prng, name string, f *family) [][2]string {
 	}
 	clean := func(s string) string { return strings.TrimSpace(s) }
 	n := p.rng(1, 4)
+	if p.chance(1, 4) {
+		n = p.rng(8, 14) // long constraint lists take their own paths
+	}
 	var parts []string
 	var used []string
 	for i := 0; i < n; i++ {
